@@ -378,14 +378,15 @@ def trimmed_pattern(rep, rule, c, r):
     P = r.case_pat
     gb = c.parse("exact_log2(self.bus.data_width // self.bus.granularity)")
     env = {"pat": r.pat, "gb": gb}
-    forms = [c.parse("pat[:-gb if gb > 0 else None]", env), c.parse("pat[:len(pat) - gb]", env)]
+    forms = [c.norm(c.parse("pat[:-gb if gb > 0 else None]", env)), c.norm(c.parse("pat[:len(pat) - gb]", env)),
+             c.norm(c.parse("pat[:-gb] if gb > 0 else pat", env))]
     if P == r.pat:
         rep.bad(rule, site, "Case pattern trimmed by the granularity bits",
                 "the map pattern is used untrimmed although the map addresses granules and the bus addresses words")
     elif P in forms:
         rep.ok(rule, site, "Case pattern == window pattern without its exact_log2(data_width // granularity) low bits",
                f"pattern {ir.show(P)}")
-    elif P[0] == 'sub' and P[1] == r.pat:
+    elif (P[0] == 'sub' and P[1] == r.pat) or (P[0] == 'phi' and all(x == r.pat or (x[0] == 'sub' and x[1] == r.pat) for x in (P[2], P[3]))):
         rep.unk(rule, site, "Case pattern trimmed by the granularity bits", f"unrecognised trimming {ir.show(P)}")
     else:
         rep.bad(rule, site, "Case pattern is the window's own pattern", f"Case uses {ir.show(P)}")
